@@ -52,7 +52,7 @@ def worker(i):
     while True:
         try: m = q.get_nowait()
         except queue.Empty: break
-        name = os.path.basename(m)[:-5] if m.endswith('.diff') else os.path.basename(os.path.dirname(m))
+        name = ('seeded-' + os.path.basename(os.path.dirname(m))) if os.path.basename(m) == 'patch.diff' else os.path.basename(m)[:-5]
         r = sh(f'git apply {m}', cwd=f'{lab}/repo')
         if r.returncode != 0:
             with lock:
